@@ -48,6 +48,7 @@ type c19Doc struct {
 
 type c19Result struct {
 	errored bool
+	errText string
 	entry   ociauth.ConfigEntry
 }
 
@@ -66,7 +67,15 @@ func c19(env *core.Env) {
 	authBad := false
 	mkEntry := func(tagstr string) c19Entry {
 		var e c19Entry
-		switch c.Int("entry.kind", 7) {
+		switch c.Int("entry.kind", 9) {
+		case 7:
+			// NUL bytes that are part of the password (only trailing ones are padding)
+			e.Auth = base64.StdEncoding.EncodeToString([]byte("nuluser-" + tagstr + ":\x00lead\x00mid-" + tagstr))
+			shape = append(shape, "auth-nul-inside")
+		case 8:
+			// user names and passwords with spaces, colons after the first, non-ASCII
+			e.Auth = base64.StdEncoding.EncodeToString([]byte("us er-" + tagstr + ": p:w \u00e9-" + tagstr + " "))
+			shape = append(shape, "auth-odd-chars")
 		case 0:
 			e.Username, e.Password = "user-"+tagstr, "pass-"+tagstr
 			shape = append(shape, "userpass")
@@ -86,6 +95,9 @@ func c19(env *core.Env) {
 			shape = append(shape, "auth-garbage")
 		case 5:
 			e.IdentityToken = "idtoken-" + tagstr
+			if c.Bool("entry.idtoken+user", 1, 3) {
+				e.Username, e.Password = "idu-"+tagstr, "idp-"+tagstr
+			}
 			shape = append(shape, "identitytoken")
 		case 6:
 			e.RegistryToken = "regtoken-" + tagstr
@@ -229,6 +241,9 @@ func c19(env *core.Env) {
 			h := queries[qi]
 			e, err := cf.EntryForRegistry(h)
 			results[h] = c19Result{errored: err != nil, entry: e}
+			if err != nil {
+				results[h] = c19Result{errored: true, errText: err.Error()}
+			}
 			if c.Bool("lookup.repeat", 1, 4) {
 				e2, err2 := cf.EntryForRegistry(h)
 				if (err2 != nil) != (err != nil) || e2 != e {
@@ -253,6 +268,10 @@ func c19(env *core.Env) {
 				a, b := firstResults[h], results[h]
 				if a.errored != b.errored || (!a.errored && a.entry != b.entry) {
 					env.Failf("C19/lookup/order-dependent", "lookup of %q gives %s under one map iteration / lookup order and %s under another (config %s)", h, a, b, data)
+				}
+				if a.errored && a.errText != b.errText {
+					// which error a failing lookup reports is part of its result
+					env.Failf("C19/lookup/error-order-dependent", "lookup of %q fails with %q under one map iteration / lookup order and with %q under another (config %s)", h, a.errText, b.errText, data)
 				}
 			}
 		}
